@@ -52,6 +52,14 @@ def h_round(ctx, case):
     ch = case.get('chunks')
     write_h5ad_x(env, path, dense, enc, dense_chunks=tuple(ch)
                  if (ch and enc == 'dense') else None)
+    if ch and enc != 'dense':
+        # the value array stored in HDF5 chunks of the given length
+        with env.File(path, 'a') as f:
+            d = f['X/data'][()]
+            if len(d) >= ch[0]:
+                del f['X/data']
+                f['X'].create_dataset('data', data=d, chunks=(ch[0],),
+                                      dtype=np.float64)
     if enc == 'csc':
         # stored column by column
         vals = [dense[r][c] for c in range(nc) for r in range(nr)
@@ -184,15 +192,36 @@ def h_regex(ctx, case):
             z3.Not(z3.Contains(pre, dot)), z3.Not(z3.InRe(pre, lang)))
     r1 = sol.check()
     sol.pop()
-    ctx.check(str(r1) == 'unsat', 'version-stripped identifier is still '
-              f'an identifier without a dot (solver: {r1})')
+    def decided(r, label):
+        # unsat: the lemma holds; sat: it does not; anything else is
+        # inconclusive, never a violation
+        if str(r) in ('sat', 'unsat'):
+            ctx.check(str(r) == 'unsat', label)
+        else:
+            ctx.stats.unknown += 1
+            ctx.unknown_labels.append(label)
+    decided(r1, 'version-stripped identifier is still an identifier '
+            f'without a dot (solver: {r1})')
+    # (1b) an identifier without a version suffix is made of letters and
+    # digits only (a name like ENSG0001-1 or ENSG0001_2, as produced by
+    # var_names_make_unique, is not an identifier to be kept verbatim)
+    alnum = z3.Star(z3.Union(z3.Range('A', 'Z'), z3.Range('a', 'z'),
+                             z3.Range('0', '9')))
+    sol.push()
+    nodot = z3.Star(z3.Union(z3.Range(chr(1), '-'), z3.Range('/', '~')))
+    sol.add(z3.InRe(s, z3.Intersect(lang, nodot, z3.Complement(alnum))))
+    r1b = sol.check()
+    w1b = sol.model()[s].as_string() if str(r1b) == 'sat' else None
+    sol.pop()
+    decided(r1b, 'an identifier without a dot consists of letters and '
+            f'digits only (solver: {r1b}, e.g. {w1b!r})')
     # (2) no placeholder name unmapped_<n>_<timestamp> is in L
     sol.push()
     sol.add(z3.InRe(s, lang), z3.PrefixOf(z3.StringVal('unmapped_'), s))
     r2 = sol.check()
     sol.pop()
-    ctx.check(str(r2) == 'unsat', 'no placeholder name is an Ensembl '
-              f'identifier (solver: {r2})')
+    decided(r2, 'no placeholder name is an Ensembl identifier '
+            f'(solver: {r2})')
     # (3) witnesses from the solver agree with the real function
     sol.push()
     sol.add(z3.InRe(s, lang), z3.Length(s) <= 10, z3.Contains(s, dot))
@@ -246,7 +275,10 @@ def _regex_to_z3(pat):
         if c == '\\':
             pos[0] += 2
             return z3.Re(pat[pos[0] - 1])
-        if c in '.^$|{}':
+        if c == '.':
+            pos[0] += 1
+            return z3.AllChar(z3.ReSort(z3.StringSort()))
+        if c in '^$|{}':
             raise core.ShimGap(f'regex feature {c}')
         pos[0] += 1
         return z3.Re(c)
@@ -420,6 +452,8 @@ HARNESSES = [
             cases=[{'shape': [1, 2], 'enc': 'dense'},
                    {'shape': [2, 1], 'enc': 'dense', 'chunks': [1, 1]},
                    {'shape': [1, 2], 'enc': 'csr'},
+                   {'shape': [2, 2], 'enc': 'csr', 'chunks': [1],
+                    'range': [250, 260]},
                    {'shape': [1, 2], 'enc': 'dense', 'range': [250, 260]},
                    {'shape': [1, 2], 'enc': 'dense', 'range': [-2, 2]}],
             thorough_cases=[{'shape': [1, 3], 'enc': 'dense'},
